@@ -242,7 +242,7 @@ func runCase(t *rapid.T, replay *scripts) {
 	go func() { cw.Wait(); close(done) }()
 	select {
 	case <-done:
-	case <-time.After(60 * time.Second):
+	case <-time.After(sut.Patience(60 * time.Second)):
 		close(stop)
 		if !p.Alive() {
 			trace := p.CrashTrace()
